@@ -1,4 +1,5 @@
 SPECIFICATION Spec
 CONSTANTS MaxLines = 3
           Shapes <- ShapesFull
-INVARIANTS NormalFormIsFixedPoint NormalIsClean RulesAreInputLines HTMLFirstFails BinaryFails Deterministic
+          Endings <- EndingsAll
+INVARIANTS Statement
